@@ -43,7 +43,7 @@ TInit == EInit /\ tid \in 1..Len(Traces)
 \* config.py:38: the !required check comes before anything is evaluated
 HasRequired(t) == \E p \in PathsOf(t) : At(t, p).k = "required"
 TRequired == /\ status = "idle" /\ HasRequired(LSource) /\ status' = "RequiredError"
-             /\ UNCHANGED <<work, stack, cache, heap, calls, evlog, reqsafe, taint, tid>>
+             /\ UNCHANGED <<work, stack, cache, heap, calls, evlog, reqsafe, taint, over, tid>>
 TStart == status = "idle" /\ ~HasRequired(LSource) /\ StartOn(MTree) /\ UNCHANGED tid
 TStep == EStep /\ UNCHANGED tid
 TNext == TRequired \/ TStart \/ TStep
